@@ -98,6 +98,41 @@ JudgeBnf20(G, exp, w, k) ==
        ELSE IF \E t \in Expand(o.tree) \cup {o.one} : ~IsDerivOf(G, t, w) THEN o.cfg \o ":forest-tree-that-is-not-a-derivation"
        ELSE JudgeBnf20(G, exp, w, k + 1)
 
+\* ---- C05: ambiguity='resolve' picks a priority-optimal derivation, deterministically ----
+\* G.rules[r].prio, c.tprio[terminal]; o.mode in normal|invert|none; o.dyn: terminal priorities count;
+\* o.noprio: the tree the same configuration returns when every priority is erased; o.det: identical across
+\* processes, hash seeds, repeated calls and fresh instances (all compared by the harness, all sent here)
+RECURSIVE PrioOf(_, _, _, _)
+PrioOf(G, tp, dyn, t) ==
+  IF t[1] = "T" THEN (IF dyn THEN tp[t[2]] ELSE 0)
+  ELSE IF t[1] # "R" THEN 0
+  ELSE RuleNamed(G, t[2]).prio + SumSeq([q \in DOMAIN t[4] |-> PrioOf(G, tp, dyn, t[4][q])])
+
+\* the built-in precedence: a directly empty alternative of a rule is chosen only where no non-empty alternative
+\* of that rule matches the same (empty) span
+RECURSIVE UsesEmptyWrongly(_, _, _)
+UsesEmptyWrongly(G, w, t) ==
+  IF t[1] # "R" THEN FALSE
+  ELSE IF t[4] = <<>> THEN \E cl \in RuleResults(Ctx(G, w), t[2], 0, 0) : Len(cl) = 1 /\ cl[1][1] = "R" /\ cl[1][4] # <<>>
+  ELSE \E q \in DOMAIN t[4] : UsesEmptyWrongly(G, w, t[4][q])
+
+RECURSIVE JudgeObs05(_, _, _, _)
+JudgeObs05(c, obs, trees, k) ==
+  IF k > Len(obs) THEN "ok"
+  ELSE LET o == obs[k]
+           ps == {PrioOf(c.G, c.tprio, o.dyn, t) : t \in trees}
+           best == IF o.mode = "invert" THEN CHOOSE x \in ps : \A y \in ps : x <= y
+                   ELSE CHOOSE x \in ps : \A y \in ps : x >= y
+       IN IF o.out = 2 THEN o.cfg \o ":unexpected-exception"
+          ELSE IF o.out = 1 THEN JudgeObs05(c, obs, trees, k + 1)          \* acceptance is C01's business
+          ELSE IF o.tree \notin trees THEN o.cfg \o ":result-is-not-a-derivation"
+          ELSE IF ~o.det THEN o.cfg \o ":result-differs-between-runs-processes-or-hash-seeds"
+          ELSE IF o.mode = "none" /\ o.tree # o.noprio THEN o.cfg \o ":priority=None-result-affected-by-priorities"
+          ELSE IF c.emptyalt /\ UsesEmptyWrongly(c.G, c.w0, o.tree) THEN o.cfg \o ":" \o o.mode \o ":empty-alternative-chosen-although-a-non-empty-one-matches"
+          ELSE IF o.mode # "none" /\ ~c.emptyalt /\ PrioOf(c.G, c.tprio, o.dyn, o.tree) # best
+               THEN o.cfg \o ":" \o o.mode \o ":result-is-not-priority-optimal"
+          ELSE JudgeObs05(c, obs, trees, k + 1)
+
 Init == tid \in 1..NCases /\ ii = 0 /\ verdict = "ok"
 Next ==
   /\ ii < Len(Cases[tid].inputs)
@@ -105,7 +140,8 @@ Next ==
   /\ LET c == Cases[tid]
          inp == c.inputs[ii + 1]
          trees == TreesOfInput(c.G, inp.w)
-         v == IF Which = "C20" /\ c.cyclic THEN JudgeBnf20(c.G, inp.exp, inp.w, 1)
+         v == IF Which = "C05" THEN JudgeObs05(c, inp.obs, trees, 1)
+              ELSE IF Which = "C20" /\ c.cyclic THEN JudgeBnf20(c.G, inp.exp, inp.w, 1)
               ELSE IF Which = "C20" THEN JudgeObs20(inp.exp, trees, c.cyclic, 1)
               ELSE IF Which = "C04" /\ c.cyclic THEN JudgeBnf(c.G, inp.exp, inp.w, 1)
               ELSE IF Which = "C04" THEN JudgeObs04(inp.exp, trees, c.cyclic, 1)
